@@ -113,8 +113,9 @@ ExecPic(pic, tb, embedded, off, idx, dig(_, _, _)) ==
   ELSE IF size < 0 THEN [ok |-> TRUE, ls |-> <<>>]         \* no picture from this source: an empty reply
   ELSE IF off > size THEN [ok |-> FALSE, ls |-> <<AckL(2, idx, name, <<66,97,100,32,102,105,108,101,32,111,102,102,115,101,116>>)>>]
   ELSE LET n == ChunkLen(pic, off, size) IN
-       [ok |-> TRUE, ls |-> <<Fld(SIZE, Dec(size))>>
-                            \o (IF embedded /\ pic.hasMime THEN <<Fld(TYPE, pic.mime)>> ELSE <<>>)
+       \* (the protocol fixes no order of `size` and `type`: pic.tfirst puts the type first)
+       [ok |-> TRUE, ls |-> (IF embedded /\ pic.hasMime /\ pic.tfirst THEN <<Fld(TYPE, pic.mime), Fld(SIZE, Dec(size))>>
+                             ELSE <<Fld(SIZE, Dec(size))>> \o (IF embedded /\ pic.hasMime THEN <<Fld(TYPE, pic.mime)>> ELSE <<>>))
                             \o <<BinL(n, dig((IF embedded THEN 1 ELSE 2) + tb, off, n))>>]
 
 \* ------------------------------------------------------------------ results
@@ -146,7 +147,7 @@ InitW(hasPw, pw, srvPw, hasSrvPw, auth, pic) ==
     reqs |-> <<>>, curList |-> <<>>,
     alts |-> {[ow |-> <<>>, lx |-> 0]}, lxRep |-> 0, tmo |-> FALSE,
     fault |-> "", poison |-> -1, lostAt |-> -1, obs |-> {}, surfaced |-> FALSE,
-    nClosingEv |-> 0, evEnded |-> FALSE, evAfterEnd |-> FALSE, evAfterClosing |-> FALSE, evDropped |-> FALSE, evLazy |-> FALSE,
+    nClosingEv |-> 0, evEnded |-> FALSE, evAfterEnd |-> FALSE, evAfterClosing |-> FALSE, evDropped |-> FALSE, evLazy |-> FALSE, idleExtra |-> 0,
     handles |-> 0, ioDropped |-> FALSE, connected |-> "", nconf |-> 0, desync |-> FALSE, wst |-> FALSE,
     art |-> <<>>,
     viol |-> <<>> ]
@@ -173,8 +174,15 @@ Emit(w, kind, ls, ri) ==
   IN [w EXCEPT !.out = @ \o newOut, !.reps = Append(@, rep), !.wr = ends[Len(ls)],
              !.alts = {[a EXCEPT !.ow = @ \o owedNew] : a \in @}]
 
-IdleReply(w) == Emit([w EXCEPT !.pend = <<>>, !.mode = "ready"], "idle",
-                     [i \in 1..Len(w.pend) |-> Fld(CHANGED, w.pend[i])] \o <<OkL>>, 0)
+\* (w.idleExtra: a reply to idle may carry fields other than `changed` - newer servers add fields; 1 = one after the first
+\*  changed line, 2 = one before all of them)
+PARTITIONK == <<112,97,114,116,105,116,105,111,110>>
+DEFAULTV == <<100,101,102,97,117,108,116>>
+IdleReply(w) == LET ch == [i \in 1..Len(w.pend) |-> Fld(CHANGED, w.pend[i])]
+                    ex == Fld(PARTITIONK, DEFAULTV)
+                    ls == IF w.idleExtra = 1 /\ ch # <<>> THEN <<ch[1], ex>> \o Tail(ch)
+                          ELSE IF w.idleExtra = 2 THEN <<ex>> \o ch ELSE ch IN
+                Emit([w EXCEPT !.pend = <<>>, !.mode = "ready", !.idleExtra = 0], "idle", ls \o <<OkL>>, 0)
 
 \* environment: subsystems S (sequence of names) change on the server
 WChange(w, S) ==
@@ -183,6 +191,7 @@ WChange(w, S) ==
       Dedup(s, acc) == IF s = <<>> THEN acc ELSE Dedup(Tail(s), IF \E i \in 1..Len(acc) : acc[i] = Head(s) THEN acc ELSE Append(acc, Head(s)))
       w1 == [w EXCEPT !.pend = @ \o Dedup(fresh, <<>>)] IN
   IF w1.mode = "idle" /\ ~w1.silent /\ w1.pend # <<>> THEN IdleReply(w1) ELSE w1
+WChangeX(w, S, x) == WChange([w EXCEPT !.idleExtra = x], S)
 
 \* ------------------------------------------------------------------ request bookkeeping
 ReqIndex(w, c, n) == IF \E i \in 1..Len(w.reqs) : w.reqs[i].c = c /\ w.reqs[i].n = n
@@ -234,7 +243,7 @@ WCliLineD(w, ln, dig(_, _, _)) ==
       w4a == Chk(w3, ~healthy \/ w.mode # "idle" \/ ln.k = "noidle", "C05", "command written while the server waits in idle")
       \* a noidle that crosses an idle reply still in flight is a legal race (the server ignores it); one written after that reply
       \* was read completely is not: the client knows that no idle is pending
-      w4 == Chk(w4a, ~(ln.k = "noidle" /\ healthy /\ w.phase = "up" /\ w.mode # "idle" /\ w.rd = w.wr /\ ~w.silent), "C05", "noidle written although no idle is pending")
+      w4 == Chk(w4a, ~(ln.k = "noidle" /\ (healthy \/ w.fault = "idleack") /\ w.phase = "up" /\ w.mode # "idle" /\ w.rd = w.wr /\ ~w.silent), "C05", "noidle written although no idle is pending")
       startsReq == w.mode # "list" /\ ln.k \in {"req", "begin", "pic", "other", "sticker", "update", "addid", "channels"}
       w5 == IF startsReq /\ healthy THEN Chk(w4, w.rd = w.wr, "C05", "request written while earlier server output is still unread (more than one exchange outstanding)") ELSE w4
       w6 == IF ln.k = "idle" /\ w.mode # "idle" /\ healthy THEN Chk(w5, w.rd = w.wr, "C05", "idle written while earlier server output is still unread") ELSE w5
@@ -267,6 +276,7 @@ WCliLineD(w, ln, dig(_, _, _)) ==
              rej  == AckL(3, 0, PASSWORD, <<105,110,99,111,114,114,101,99,116,32,112,97,115,115,119,111,114,100>>) IN
          CASE w7.auth = "ok"  -> Emit([w7 EXCEPT !.phase = "authwait"], "auth", IF good THEN <<OkL>> ELSE <<rej>>, 0)
            [] w7.auth = "ack" -> Emit([w7 EXCEPT !.phase = "authwait"], "auth", <<rej>>, 0)
+           [] w7.auth = "ack5" -> Emit([w7 EXCEPT !.phase = "authwait"], "auth", <<AckL(5, 0, <<>>, <<117,110,107,110,111,119,110,32,99,111,109,109,97,110,100>>)>>, 0)
            [] w7.auth = "ack4" -> Emit([w7 EXCEPT !.phase = "authwait"], "auth", <<AckL(4, 0, PASSWORD, <<112,101,114,109,105,115,115,105,111,110,32,100,101,110,105,101,100>>)>>, 0)
            [] w7.auth = "garbage" -> Emit([w7 EXCEPT !.phase = "authwait"], "auth", <<BadL(<<33,98,97,100,10>>)>>, 0)
            [] w7.auth = "partial" -> Emit([w7 EXCEPT !.phase = "authwait", !.silent = TRUE], "auth", <<BadL(<<79>>)>>, 0)
@@ -306,7 +316,14 @@ AtBoundary(w) == w.rd = 0 \/ \E i \in 1..Len(w.reps) : w.reps[i].end = w.rd
 WFault(w, kind, lost) ==
   LET w1 == [w EXCEPT !.fault = IF @ = "" THEN kind ELSE @, !.tmo = FALSE] IN
   CASE kind = "eof"     -> [w1 EXCEPT !.silent = TRUE, !.lostAt = w.wr - lost]
-    [] kind = "garbage" -> Emit([w1 EXCEPT !.poison = IF @ < 0 THEN w.wr ELSE @], "garbage", <<BadL(<<33,98,97,100,10>>)>>, 0)
+    \* garbage: a line the parser rejects, followed by a well-formed tail of the same reply (which must not be taken for anything)
+    [] kind = "garbage" -> Emit([w1 EXCEPT !.poison = IF @ < 0 THEN w.wr ELSE @], "garbage", <<BadL(<<33,98,97,100,10>>), Fld(<<120>>, <<121>>), OkL>>, 0)
+    \* idleack: the server refuses the pending idle with an ACK (e.g. no permission): the connection cannot be used as the client
+    \* expects; like garbage it must be surfaced, and nothing of the idle discipline may be violated afterwards
+    [] kind = "idleack" -> IF w.mode = "idle" /\ ~w.silent
+                           THEN Emit([w1 EXCEPT !.poison = IF @ < 0 THEN w.wr ELSE @, !.mode = "ready"], "garbage",
+                                     <<AckL(4, 0, <<105,100,108,101>>, <<110,111,32,112,101,114,109,105,115,115,105,111,110>>)>>, 0)
+                           ELSE w
     [] OTHER            -> w1
 \* after an eof fault the undelivered bytes are gone: wr is cut back to what was delivered
 WFaultCut(w, lost) == [w EXCEPT !.wr = @ - lost]
